@@ -43,6 +43,15 @@ def setup_sinks(world):
                           raises={'AttributeError': True})
 
 
+def setup_sinks_opdot(world):
+    setup_sinks(world)
+    # ASSUMED (host configuration domain, yaqlization.yaqlize docstring): a
+    # value of attributeRemapping is a name or a (name, argument-mapping)
+    # pair - in particular not a class object (len() of which raises)
+    world.callee_contract(Z + '_remap_name', result=TVal,
+                          ensures=['not isinstance(result, "type")'])
+
+
 class settings_of:
     is_factory = True
 
